@@ -1,3 +1,401 @@
 import Proofs.KDefs
+import Proofs.Lemmas.C12
+import Proofs.Lemmas.C12Path
+/-! C12 – affine maps act as the documented matrices.  Model = the kernel definitions `Affine.*`, `TranslateScale.*`
+    of `Kurbo/Kernel.lean` (translator output) and `segs` of `Kurbo/Path.lean`; all algebraic statements are for an
+    arbitrary lawful scalar `K`, the "by definition" ones for an arbitrary `Scalar`.
+
+    PROVED
+    1. `(A*B)*p = A*(B*p)`, associativity, `Affine.scale 1` is the two-sided unit and acts trivially; closed forms of
+       the action of every generator (scale, scale_non_uniform, translate, skew, rotate, scale_about, rotate_about) and
+       `X_about c = translate c * X * translate (-c)`.
+    2. `det (A*B) = det A * det B`, determinants of the generators.
+    3. `det A ≠ 0`: `A * A.inverse = A.inverse * A = scale 1`, action version, injectivity, `det A⁻¹ = 1 / det A`.
+    4. every `pre_X` is `self * X`, every `then_X` is `X * self` (11 members; `then_translate`, which is implemented by
+       mutating the last column, needs arithmetic, the others are definitional), plus the action form;
+       `translation`/`with_translation`.
+    5. `scale_about`/`rotate_about` fix their centre (`sin`/`cos` arbitrary); `reflect p d` fixes `p` and every point
+       `p + t·d` of its axis *whatever `Scalar.hypot` returns*; with `hypot² = d.x²+d.y² ≠ 0` it flips the normal
+       direction, is an involution and has determinant −1.
+    6. `(A * s).eval t = A * s.eval t` for Line/QuadBez/CubicBez/PathSeg, sub-segments commute, start/end/`as_path_el`/
+       `end_point` commute, `A * PathSeg`/`A * PathEl` keep the kind and map the points; for `det A ≠ 0` the segments of
+       the mapped element list are the mapped segments (`path_segments_commute`, `path_eval_commutes`).
+    7. `TranslateScale`: action, product, inverse (`scale ≠ 0`), `translate`, `from_scale_about`, `add_Vec2`/`sub_Vec2`,
+       `mul_Line/QuadBez/CubicBez` all agree with `to_affine`; `mul_Rect = to_affine.transform_rect_bbox` for EVERY scale
+       (also negative and zero) and every corner order; `T * r` contains `T * p` for every `p` of the closed `r`, and for
+       `scale ≠ 0` exactly those (`ts_mul_rect_image`).
+    8. `transform_rect_bbox r` contains the image of every point of the closed rectangle `r` (corners in any order), in
+       particular of the four corners; it is tight (each side passes through a corner image) and non-negative.
+
+    NOT PROVED / out of scope of this file
+    * nothing about `sin`/`cos` themselves: `Affine.rotate th` is treated as the matrix `[c s; -s c]` for arbitrary values
+      `s = Scalar.sin th`, `c = Scalar.cos th` (so "rotate is an isometry", `rotate a * rotate b = rotate (a+b)` are not stated).
+    * `reflect` being the *metric* reflection needs `Scalar.hypot` to be the Euclidean norm; that is a hypothesis of
+      `reflect_flips_normal`/`reflect_involution`, not a theorem (a lawful `K` need not have square roots).
+    * `path_segments_commute` is false for singular maps (a collapsed closing line is no longer emitted – `example` below);
+      it is proved for `det ≠ 0` only.
+    * `Affine * Arc/Ellipse/Circle/RoundedRect`, `svd`, `BezPath::apply_affine` as a mutation (here: `List.map`)
+      are not covered: they are not among the kernel items of this property.
+    Helper lemmas: `Proofs/Lemmas/C12.lean`, `Proofs/Lemmas/C12Path.lean`. -/
+set_option linter.unusedSectionVars false
 namespace Kurbo
+variable {K : Type} [Field K] [LinearOrder K] [IsStrictOrderedRing K] [FloorRing K] [Scalar K] [LawfulScalar K]
+
+/-! ### 1. composition is a monoid acting on points; `Affine.scale 1` is the identity -/
+
+theorem affine_mul_action (A B : Affine K) (p : Point K) : (A * B) * p = A * (B * p) := by kaff
+theorem affine_mul_assoc (A B C : Affine K) : (A * B) * C = A * (B * C) := by kaff
+theorem affine_one_mul (A : Affine K) : Affine.scale (1 : K) * A = A := by cases A; kaff
+theorem affine_mul_one (A : Affine K) : A * Affine.scale (1 : K) = A := by cases A; kaff
+theorem affine_one_act (p : Point K) : Affine.scale (1 : K) * p = p := by cases p; kaff
+
+/-! ### the generators act as the documented matrices -/
+
+theorem affine_act_formula (A : Affine K) (p : Point K) :
+    A * p = ⟨A.c0 * p.x + A.c2 * p.y + A.c4, A.c1 * p.x + A.c3 * p.y + A.c5⟩ := by kaff
+theorem scale_act (s : K) (p : Point K) : Affine.scale s * p = ⟨s * p.x, s * p.y⟩ := by kaff
+theorem scale_non_uniform_act (sx sy : K) (p : Point K) : Affine.scale_non_uniform sx sy * p = ⟨sx * p.x, sy * p.y⟩ := by kaff
+theorem translate_act (v : Vec2 K) (p : Point K) : Affine.translate v * p = p + v := by kaff
+theorem skew_act (kx ky : K) (p : Point K) : Affine.skew kx ky * p = ⟨p.x + kx * p.y, ky * p.x + p.y⟩ := by kaff
+theorem rotate_act (th : K) (p : Point K) :
+    Affine.rotate th * p = ⟨Scalar.cos th * p.x - Scalar.sin th * p.y, Scalar.sin th * p.x + Scalar.cos th * p.y⟩ := by kaff
+theorem scale_about_act (s : K) (c p : Point K) :
+    Affine.scale_about s c * p = ⟨c.x + s * (p.x - c.x), c.y + s * (p.y - c.y)⟩ := by kaff
+theorem rotate_about_act (th : K) (c p : Point K) :
+    Affine.rotate_about th c * p =
+      ⟨c.x + (Scalar.cos th * (p.x - c.x) - Scalar.sin th * (p.y - c.y)),
+       c.y + (Scalar.sin th * (p.x - c.x) + Scalar.cos th * (p.y - c.y))⟩ := by kaff
+theorem scale_about_decomp (s : K) (c : Point K) :
+    Affine.scale_about s c = Affine.translate c.to_vec2 * Affine.scale s * Affine.translate (-c.to_vec2) := by kaff
+theorem rotate_about_decomp (th : K) (c : Point K) :
+    Affine.rotate_about th c = Affine.translate c.to_vec2 * Affine.rotate th * Affine.translate (-c.to_vec2) := by kaff
+
+/-! ### 2. the determinant is multiplicative -/
+
+theorem affine_det_mul (A B : Affine K) : (A * B).determinant = A.determinant * B.determinant := by kaff
+theorem affine_det_scale (s : K) : (Affine.scale s).determinant = s * s := by kaff
+theorem affine_det_scale_non_uniform (sx sy : K) : (Affine.scale_non_uniform sx sy).determinant = sx * sy := by kaff
+theorem affine_det_translate (v : Vec2 K) : (Affine.translate v).determinant = 1 := by kaff
+theorem affine_det_skew (kx ky : K) : (Affine.skew kx ky).determinant = 1 - kx * ky := by kaff
+theorem affine_det_rotate (th : K) :
+    (Affine.rotate th).determinant = Scalar.cos th * Scalar.cos th + Scalar.sin th * Scalar.sin th := by kaff
+
+/-! ### 3. `inverse` is the two-sided inverse of a non-singular map -/
+
+theorem affine_mul_inverse (A : Affine K) (h : A.determinant ≠ 0) :
+    A * A.inverse = Affine.scale (1 : K) ∧ A.inverse * A = Affine.scale (1 : K) := by
+  have h' : A.c0 * A.c3 - A.c1 * A.c2 ≠ 0 := by simpa only [kdefs, scalar_norm] using h
+  constructor <;> kaff_unfold <;> (repeat' (refine And.intro ?_ ?_)) <;> field_simp <;> ring
+
+theorem affine_inverse_act (A : Affine K) (h : A.determinant ≠ 0) (p : Point K) :
+    A.inverse * (A * p) = p ∧ A * (A.inverse * p) = p := by
+  obtain ⟨h1, h2⟩ := affine_mul_inverse A h
+  constructor
+  · rw [← affine_mul_action, h2, affine_one_act]
+  · rw [← affine_mul_action, h1, affine_one_act]
+
+theorem affine_act_injective (A : Affine K) (h : A.determinant ≠ 0) (p q : Point K) (e : A * p = A * q) : p = q := by
+  rw [← (affine_inverse_act A h p).1, e, (affine_inverse_act A h q).1]
+
+theorem affine_inverse_det (A : Affine K) (h : A.determinant ≠ 0) :
+    A.inverse.determinant = 1 / A.determinant := by
+  have h' : A.c0 * A.c3 - A.c1 * A.c2 ≠ 0 := by simpa only [kdefs, scalar_norm] using h
+  kaff_unfold; field_simp
+
+example : (Affine.mk (2 : Rat) 1 (-3) 5 7 (-1)).determinant ≠ 0 := by decide +kernel
+
+/-! ### 4. every `pre_*` is `self * T`, every `then_*` is `T * self` -/
+
+section structural
+/-! by definition (no arithmetic law used; holds for every `Scalar`, also `Float`) -/
+variable {K' : Type} [Scalar K']
+theorem pre_translate_spec (A : Affine K') (v : Vec2 K') : A.pre_translate v = A * Affine.translate v := rfl
+theorem pre_scale_spec (A : Affine K') (s : K') : A.pre_scale s = A * Affine.scale s := rfl
+theorem pre_scale_non_uniform_spec (A : Affine K') (sx sy : K') :
+    A.pre_scale_non_uniform sx sy = A * Affine.scale_non_uniform sx sy := rfl
+theorem pre_rotate_spec (A : Affine K') (th : K') : A.pre_rotate th = A * Affine.rotate th := rfl
+/-- (the pinned tree computed `rotate_about * self` here; the model is the corrected source) -/
+theorem pre_rotate_about_spec (A : Affine K') (th : K') (c : Point K') :
+    A.pre_rotate_about th c = A * Affine.rotate_about th c := rfl
+theorem then_scale_spec (A : Affine K') (s : K') : A.then_scale s = Affine.scale s * A := rfl
+theorem then_scale_non_uniform_spec (A : Affine K') (sx sy : K') :
+    A.then_scale_non_uniform sx sy = Affine.scale_non_uniform sx sy * A := rfl
+theorem then_rotate_spec (A : Affine K') (th : K') : A.then_rotate th = Affine.rotate th * A := rfl
+theorem then_rotate_about_spec (A : Affine K') (th : K') (c : Point K') :
+    A.then_rotate_about th c = Affine.rotate_about th c * A := rfl
+theorem then_scale_about_spec (A : Affine K') (s : K') (c : Point K') :
+    A.then_scale_about s c = Affine.scale_about s c * A := rfl
+end structural
+
+/-- `then_translate` is implemented by adding to the last column; that *is* left multiplication by the translation -/
+theorem then_translate_spec (A : Affine K) (v : Vec2 K) : A.then_translate v = Affine.translate v * A := by kaff
+
+/-- in terms of the action: `pre_X` applies `X` first, `then_X` applies `X` last -/
+theorem pre_then_act (A : Affine K) (p : Point K) (v : Vec2 K) (s sx sy th : K) (c : Point K) :
+    A.pre_translate v * p = A * (Affine.translate v * p) ∧ A.then_translate v * p = Affine.translate v * (A * p) ∧
+    A.pre_scale s * p = A * (Affine.scale s * p) ∧ A.then_scale s * p = Affine.scale s * (A * p) ∧
+    A.pre_scale_non_uniform sx sy * p = A * (Affine.scale_non_uniform sx sy * p) ∧
+    A.then_scale_non_uniform sx sy * p = Affine.scale_non_uniform sx sy * (A * p) ∧
+    A.pre_rotate th * p = A * (Affine.rotate th * p) ∧ A.then_rotate th * p = Affine.rotate th * (A * p) ∧
+    A.pre_rotate_about th c * p = A * (Affine.rotate_about th c * p) ∧
+    A.then_rotate_about th c * p = Affine.rotate_about th c * (A * p) ∧
+    A.then_scale_about s c * p = Affine.scale_about s c * (A * p) := by
+  rw [then_translate_spec]
+  exact ⟨affine_mul_action _ _ _, affine_mul_action _ _ _, affine_mul_action _ _ _, affine_mul_action _ _ _,
+    affine_mul_action _ _ _, affine_mul_action _ _ _, affine_mul_action _ _ _, affine_mul_action _ _ _,
+    affine_mul_action _ _ _, affine_mul_action _ _ _, affine_mul_action _ _ _⟩
+
+theorem map_unit_square_act (r : Rect K) (u v : K) :
+    Affine.map_unit_square r * (⟨u, v⟩ : Point K) = ⟨r.x0 + u * (r.x1 - r.x0), r.y0 + v * (r.y1 - r.y0)⟩ := by
+  simp only [Rect.width, Rect.height, Affine.map_unit_square]; kaff
+
+/-! ### translation part -/
+
+theorem translation_spec (A : Affine K) : A.translation = (A * (⟨0, 0⟩ : Point K)).to_vec2 := by kaff
+theorem with_translation_spec (A : Affine K) (v : Vec2 K) :
+    (A.with_translation v).translation = v ∧
+    A.with_translation v = Affine.translate (v - A.translation) * A := by
+  constructor
+  · cases v; kaff
+  · kaff
+
+/-! ### 5. fixed points -/
+
+theorem scale_about_fixes_center (s : K) (c : Point K) : Affine.scale_about s c * c = c := by cases c; kaff
+/-- holds for arbitrary values of `sin th`, `cos th` -/
+theorem rotate_about_fixes_center (th : K) (c : Point K) : Affine.rotate_about th c * c = c := by cases c; kaff
+
+/-! ### reflection about the line through `p` with direction `d`
+    `Affine.reflect` normalises the normal `(d.y, -d.x)` with `Scalar.hypot`, which a lawful scalar does not interpret.
+    The line itself is fixed pointwise *whatever* value `hypot` returns; that the normal direction is flipped (so the
+    map is the reflection) needs `hypot² = d.x² + d.y² ≠ 0`. -/
+
+theorem reflect_fixes_point (p : Point K) (d : Vec2 K) : Affine.reflect p d * p = p := by
+  cases p; simp only [Affine.reflect, Vec2.normalize, Vec2.hypot]; kaff
+theorem reflect_fixes_axis (p : Point K) (d : Vec2 K) (t : K) :
+    Affine.reflect p d * (p + t * d) = p + t * d := by
+  cases p; simp only [Affine.reflect, Vec2.normalize, Vec2.hypot]; kaff
+
+theorem reflect_flips_normal (p : Point K) (d : Vec2 K) (t : K)
+    (hh : Scalar.hypot d.y (-d.x) ^ 2 = d.x ^ 2 + d.y ^ 2) (hd : d.x ^ 2 + d.y ^ 2 ≠ 0) :
+    Affine.reflect p d * (p + t * (⟨d.y, -d.x⟩ : Vec2 K)) = p - t * (⟨d.y, -d.x⟩ : Vec2 K) := by
+  have h0 : Scalar.hypot d.y (-d.x) ≠ 0 := by
+    intro e; rw [e] at hh; apply hd; rw [← hh]; ring
+  simp only [Affine.reflect, Vec2.normalize, Vec2.hypot]; kaff_unfold
+  generalize Scalar.hypot d.y (-d.x) = h at *
+  constructor <;> field_simp <;> rw [hh] <;> ring
+
+theorem reflect_involution (p : Point K) (d : Vec2 K)
+    (hh : Scalar.hypot d.y (-d.x) ^ 2 = d.x ^ 2 + d.y ^ 2) (hd : d.x ^ 2 + d.y ^ 2 ≠ 0) :
+    Affine.reflect p d * Affine.reflect p d = Affine.scale (1 : K) ∧ (Affine.reflect p d).determinant = -1 := by
+  have h0 : Scalar.hypot d.y (-d.x) ≠ 0 := by
+    intro e; rw [e] at hh; apply hd; rw [← hh]; ring
+  simp only [Affine.reflect, Vec2.normalize, Vec2.hypot]; kaff_unfold
+  generalize Scalar.hypot d.y (-d.x) = h at *
+  have hh4 : h ^ 4 = (d.x ^ 2 + d.y ^ 2) ^ 2 := by rw [← hh]; ring
+  refine ⟨⟨?_, ?_, ?_, ?_, ?_, ?_⟩, ?_⟩ <;> field_simp <;> (try rw [hh4]) <;> (try rw [hh]) <;> ring
+
+example : Scalar.hypot (4 : Rat) (-3) ^ 2 = (3 : Rat) ^ 2 + 4 ^ 2 ∧ (3 : Rat) ^ 2 + 4 ^ 2 ≠ 0 := by decide +kernel
+
+/-! ### 6. transforming and then evaluating = evaluating and then transforming -/
+
+theorem line_eval_commutes (A : Affine K) (l : Line K) (t : K) : (A * l).eval t = A * (l.eval t) := by kaff
+theorem quad_eval_commutes (A : Affine K) (q : QuadBez K) (t : K) : (A * q).eval t = A * (q.eval t) := by kaff
+theorem cubic_eval_commutes (A : Affine K) (c : CubicBez K) (t : K) : (A * c).eval t = A * (c.eval t) := by kaff
+theorem pathSeg_eval_commutes (A : Affine K) (s : PathSeg K) (t : K) : (A * s).eval t = A * (s.eval t) := by
+  cases s with
+  | Line l => exact line_eval_commutes A l t
+  | Quad q => exact quad_eval_commutes A q t
+  | Cubic c => exact cubic_eval_commutes A c t
+
+/-- sub-segments commute with the map as well (so "transform then split" = "split then transform") -/
+theorem subsegment_commutes (A : Affine K) (t0 t1 : K) :
+    (∀ l : Line K, (A * l).subsegment ⟨t0, t1⟩ = A * l.subsegment ⟨t0, t1⟩) ∧
+    (∀ q : QuadBez K, (A * q).subsegment ⟨t0, t1⟩ = A * q.subsegment ⟨t0, t1⟩) ∧
+    (∀ c : CubicBez K, (A * c).subsegment ⟨t0, t1⟩ = A * c.subsegment ⟨t0, t1⟩) := by
+  refine ⟨fun l => ?_, fun q => ?_, fun c => ?_⟩ <;> kaff
+
+end Kurbo
+
+namespace Kurbo
+section structural
+/-! structure theorems: hold for every `Scalar` (also `Float`), no arithmetic law is used -/
+variable {K' : Type} [Scalar K']
+
+theorem affine_mul_line (A : Affine K') (l : Line K') : A * l = ⟨A * l.p0, A * l.p1⟩ := rfl
+theorem affine_mul_quad (A : Affine K') (q : QuadBez K') : A * q = ⟨A * q.p0, A * q.p1, A * q.p2⟩ := rfl
+theorem affine_mul_cubic (A : Affine K') (c : CubicBez K') : A * c = ⟨A * c.p0, A * c.p1, A * c.p2, A * c.p3⟩ := rfl
+
+/-- the kind of a segment is preserved and its control points are mapped one by one -/
+theorem affine_mul_pathSeg (A : Affine K') :
+    (∀ l : Line K', A * PathSeg.Line l = PathSeg.Line (A * l)) ∧
+    (∀ q : QuadBez K', A * PathSeg.Quad q = PathSeg.Quad (A * q)) ∧
+    (∀ c : CubicBez K', A * PathSeg.Cubic c = PathSeg.Cubic (A * c)) := ⟨fun _ => rfl, fun _ => rfl, fun _ => rfl⟩
+
+/-- the kind of a path element is preserved and its points are mapped one by one -/
+theorem affine_mul_pathEl (A : Affine K') :
+    (∀ p : Point K', A * PathEl.MoveTo p = PathEl.MoveTo (A * p)) ∧
+    (∀ p : Point K', A * PathEl.LineTo p = PathEl.LineTo (A * p)) ∧
+    (∀ p1 p2 : Point K', A * PathEl.QuadTo p1 p2 = PathEl.QuadTo (A * p1) (A * p2)) ∧
+    (∀ p1 p2 p3 : Point K', A * PathEl.CurveTo p1 p2 p3 = PathEl.CurveTo (A * p1) (A * p2) (A * p3)) ∧
+    A * (PathEl.ClosePath : PathEl K') = PathEl.ClosePath :=
+  ⟨fun _ => rfl, fun _ => rfl, fun _ _ => rfl, fun _ _ _ => rfl, rfl⟩
+
+theorem pathSeg_start_end_commute (A : Affine K') (s : PathSeg K') :
+    (A * s).start = A * s.start ∧ (A * s).end = A * s.end := by
+  cases s <;> exact ⟨rfl, rfl⟩
+
+theorem pathSeg_as_path_el_commutes (A : Affine K') (s : PathSeg K') : (A * s).as_path_el = A * s.as_path_el := by
+  cases s <;> rfl
+
+theorem pathEl_end_point_commutes (A : Affine K') (e : PathEl K') :
+    (A * e).end_point = e.end_point.map (fun p : Point K' => A * p) := by
+  cases e <;> rfl
+
+end structural
+end Kurbo
+
+namespace Kurbo
+variable {K : Type} [Field K] [LinearOrder K] [IsStrictOrderedRing K] [FloorRing K] [Scalar K] [LawfulScalar K]
+
+/-! ### 7. a `TranslateScale` behaves exactly like the `Affine` it converts to -/
+
+theorem ts_act_formula (T : TranslateScale K) (p : Point K) :
+    T * p = ⟨T.scale * p.x + T.translation.x, T.scale * p.y + T.translation.y⟩ := by kaff
+theorem ts_to_affine_act (T : TranslateScale K) (p : Point K) : T.to_affine * p = T * p := by kaff
+theorem ts_mul_to_affine (S T : TranslateScale K) : (S * T).to_affine = S.to_affine * T.to_affine := by kaff
+theorem ts_mul_action (S T : TranslateScale K) (p : Point K) : (S * T) * p = S * (T * p) := by kaff
+theorem ts_to_affine_det (T : TranslateScale K) : T.to_affine.determinant = T.scale * T.scale := by kaff
+
+theorem ts_inverse_act (T : TranslateScale K) (h : T.scale ≠ 0) (p : Point K) :
+    T * (T.inverse * p) = p ∧ T.inverse * (T * p) = p := by
+  cases p
+  constructor <;> kaff_unfold <;> (repeat' (refine And.intro ?_ ?_)) <;> field_simp <;> ring
+theorem ts_inverse_to_affine (T : TranslateScale K) (h : T.scale ≠ 0) :
+    T.inverse.to_affine = T.to_affine.inverse := by
+  kaff_unfold; (repeat' (refine And.intro ?_ ?_)) <;> field_simp <;> ring
+theorem ts_mul_inverse (T : TranslateScale K) (h : T.scale ≠ 0) :
+    T * T.inverse = ⟨⟨0, 0⟩, 1⟩ ∧ T.inverse * T = ⟨⟨0, 0⟩, 1⟩ := by
+  constructor <;> kaff_unfold <;> (repeat' (refine And.intro ?_ ?_)) <;> field_simp <;> ring
+
+example : (TranslateScale.mk (⟨3, -2⟩ : Vec2 Rat) (-5/2)).scale ≠ 0 := by decide +kernel
+
+theorem ts_mul_line (T : TranslateScale K) (l : Line K) : T.mul_Line l = T.to_affine * l := by kaff
+theorem ts_mul_quad (T : TranslateScale K) (q : QuadBez K) : T.mul_QuadBez q = T.to_affine * q := by kaff
+theorem ts_mul_cubic (T : TranslateScale K) (c : CubicBez K) : T.mul_CubicBez c = T.to_affine * c := by kaff
+
+theorem ts_translate_to_affine (v : Vec2 K) : (TranslateScale.translate v).to_affine = Affine.translate v := by kaff
+theorem ts_from_scale_about_to_affine (s : K) (c : Point K) :
+    (TranslateScale.from_scale_about s c).to_affine = Affine.scale_about s c := by kaff
+theorem ts_from_scale_about_fixes (s : K) (c : Point K) : TranslateScale.from_scale_about s c * c = c := by
+  cases c; kaff
+theorem ts_add_sub_vec2 (T : TranslateScale K) (v : Vec2 K) (p : Point K) :
+    (T.add_Vec2 v).to_affine = T.to_affine.then_translate v ∧ (T.sub_Vec2 v).to_affine = T.to_affine.then_translate (-v) ∧
+    T.add_Vec2 v * p = T * p + v ∧ T.sub_Vec2 v * p = T * p - v := by
+  refine ⟨?_, ?_, ?_, ?_⟩ <;> kaff
+
+theorem ts_mul_rect (T : TranslateScale K) (r : Rect K) : T.mul_Rect r = T.to_affine.transform_rect_bbox r := by
+  simp only [TranslateScale.mul_Rect, Affine.transform_rect_bbox, Rect.from_points, Rect.abs, Rect.union,
+    kdefs, scalar_norm, Rect.mk.injEq]
+  push_cast
+  have ex : ∀ a b : K, T.scale * a + 0 * b + T.translation.x = a * T.scale + T.translation.x := fun a b => by ring
+  have ey : ∀ a b : K, 0 * a + T.scale * b + T.translation.y = b * T.scale + T.translation.y := fun a b => by ring
+  simp only [ex, ey, min_self, max_self, and_self]
+
+/-! ### 8. `transform_rect_bbox` encloses the image of the rectangle -/
+
+/-- every point of the closed rectangle (corners in any order) is mapped into the closed box -/
+theorem transform_rect_bbox_contains (A : Affine K) (r : Rect K) (p : Point K)
+    (hx0 : min r.x0 r.x1 ≤ p.x) (hx1 : p.x ≤ max r.x0 r.x1) (hy0 : min r.y0 r.y1 ≤ p.y) (hy1 : p.y ≤ max r.y0 r.y1) :
+    (A.transform_rect_bbox r).x0 ≤ (A * p).x ∧ (A * p).x ≤ (A.transform_rect_bbox r).x1 ∧
+    (A.transform_rect_bbox r).y0 ≤ (A * p).y ∧ (A * p).y ≤ (A.transform_rect_bbox r).y1 := by
+  simp only [Affine.transform_rect_bbox, Rect.from_points, Rect.abs, Rect.union, kdefs, scalar_norm]
+  exact ⟨c12_min4_le_bilin _ _ _ _ _ _ _ _ _ hx0 hx1 hy0 hy1, c12_bilin_le_max4 _ _ _ _ _ _ _ _ _ hx0 hx1 hy0 hy1,
+    c12_min4_le_bilin _ _ _ _ _ _ _ _ _ hx0 hx1 hy0 hy1, c12_bilin_le_max4 _ _ _ _ _ _ _ _ _ hx0 hx1 hy0 hy1⟩
+
+example : min (3 : Rat) 1 ≤ 2 ∧ (2 : Rat) ≤ max 3 1 := by decide +kernel
+
+/-- in particular the images of the four corners -/
+theorem transform_rect_bbox_contains_corners (A : Affine K) (r : Rect K) (p : Point K)
+    (hp : p = ⟨r.x0, r.y0⟩ ∨ p = ⟨r.x0, r.y1⟩ ∨ p = ⟨r.x1, r.y0⟩ ∨ p = ⟨r.x1, r.y1⟩) :
+    (A.transform_rect_bbox r).x0 ≤ (A * p).x ∧ (A * p).x ≤ (A.transform_rect_bbox r).x1 ∧
+    (A.transform_rect_bbox r).y0 ≤ (A * p).y ∧ (A * p).y ≤ (A.transform_rect_bbox r).y1 := by
+  apply transform_rect_bbox_contains <;> rcases hp with h | h | h | h <;> subst h <;>
+    first | exact min_le_left _ _ | exact min_le_right _ _ | exact le_max_left _ _ | exact le_max_right _ _
+
+/-- the box is tight: each of its four sides passes through the image of a corner -/
+theorem transform_rect_bbox_tight (A : Affine K) (r : Rect K) :
+    let corners : List (Point K) := [⟨r.x0, r.y0⟩, ⟨r.x0, r.y1⟩, ⟨r.x1, r.y0⟩, ⟨r.x1, r.y1⟩]
+    (∃ p ∈ corners, (A * p).x = (A.transform_rect_bbox r).x0) ∧ (∃ p ∈ corners, (A * p).x = (A.transform_rect_bbox r).x1) ∧
+    (∃ p ∈ corners, (A * p).y = (A.transform_rect_bbox r).y0) ∧ (∃ p ∈ corners, (A * p).y = (A.transform_rect_bbox r).y1) := by
+  intro corners
+  simp only [Affine.transform_rect_bbox, Rect.from_points, Rect.abs, Rect.union, kdefs, scalar_norm]
+  exact ⟨c12_min4_attained (fun p : Point K => A.c0 * p.x + A.c2 * p.y + A.c4) _ _ _ _,
+    c12_max4_attained (fun p : Point K => A.c0 * p.x + A.c2 * p.y + A.c4) _ _ _ _,
+    c12_min4_attained (fun p : Point K => A.c1 * p.x + A.c3 * p.y + A.c5) _ _ _ _,
+    c12_max4_attained (fun p : Point K => A.c1 * p.x + A.c3 * p.y + A.c5) _ _ _ _⟩
+
+/-- the result is a well-formed (non-negative) rectangle -/
+theorem transform_rect_bbox_nonneg (A : Affine K) (r : Rect K) :
+    (A.transform_rect_bbox r).x0 ≤ (A.transform_rect_bbox r).x1 ∧ (A.transform_rect_bbox r).y0 ≤ (A.transform_rect_bbox r).y1 := by
+  obtain ⟨h1, h2, h3, h4⟩ := transform_rect_bbox_contains_corners A r ⟨r.x0, r.y0⟩ (Or.inl rfl)
+  exact ⟨le_trans h1 h2, le_trans h3 h4⟩
+
+
+/-- `TranslateScale * Rect` as a shape: every point of the closed rectangle is mapped into the closed image rectangle
+    (any scale, also `≤ 0`; corners in any order) -/
+theorem ts_mul_rect_contains (T : TranslateScale K) (r : Rect K) (p : Point K)
+    (hx0 : min r.x0 r.x1 ≤ p.x) (hx1 : p.x ≤ max r.x0 r.x1) (hy0 : min r.y0 r.y1 ≤ p.y) (hy1 : p.y ≤ max r.y0 r.y1) :
+    (T.mul_Rect r).x0 ≤ (T * p).x ∧ (T * p).x ≤ (T.mul_Rect r).x1 ∧
+    (T.mul_Rect r).y0 ≤ (T * p).y ∧ (T * p).y ≤ (T.mul_Rect r).y1 := by
+  rw [ts_mul_rect, ← ts_to_affine_act]
+  exact transform_rect_bbox_contains _ r p hx0 hx1 hy0 hy1
+
+/-- … and for `scale ≠ 0` nothing else is: the image rectangle is exactly the image of the rectangle -/
+theorem ts_mul_rect_image (T : TranslateScale K) (h : T.scale ≠ 0) (r : Rect K) (p : Point K) :
+    ((T.mul_Rect r).x0 ≤ (T * p).x ∧ (T * p).x ≤ (T.mul_Rect r).x1 ∧
+      (T.mul_Rect r).y0 ≤ (T * p).y ∧ (T * p).y ≤ (T.mul_Rect r).y1) ↔
+    (min r.x0 r.x1 ≤ p.x ∧ p.x ≤ max r.x0 r.x1 ∧ min r.y0 r.y1 ≤ p.y ∧ p.y ≤ max r.y0 r.y1) := by
+  constructor
+  · simp only [TranslateScale.mul_Rect, Rect.from_points, Rect.abs, kdefs, scalar_norm]
+    rintro ⟨h1, h2, h3, h4⟩
+    obtain ⟨a, b⟩ := c12_between_of_scaled _ _ _ _ _ h h1 h2
+    obtain ⟨c, d⟩ := c12_between_of_scaled _ _ _ _ _ h h3 h4
+    exact ⟨a, b, c, d⟩
+  · rintro ⟨h1, h2, h3, h4⟩
+    exact ts_mul_rect_contains T r p h1 h2 h3 h4
+
+/-! ### paths: the segments of the transformed element list are the transformed segments (non-singular map)
+    `segs` models `BezPath::segments().collect()` (`none` = the iterator panics).  For a *singular* map the statement
+    fails in a harmless way: a `ClosePath` whose closing line collapses to a point no longer emits that zero-length
+    line (see the `example` below), which is why `det ≠ 0` is assumed. -/
+
+theorem path_segments_commute (A : Affine K) (h : A.determinant ≠ 0) (els : List (PathEl K)) :
+    segs (els.map (fun e : PathEl K => A * e)) = (segs els).map (List.map (fun s : PathSeg K => A * s)) := by
+  have key := segsIdxFrom_commutes A (affine_act_injective A h) els none 0
+  have e0 : mapSegSt A (none : SegSt K) = none := rfl
+  rw [e0] at key
+  simp only [segs, segsIdx, key]
+  cases segsIdxFrom none 0 els with
+  | none => rfl
+  | some l => simp only [Option.map_some, List.map_map]; rfl
+
+/-- evaluating the `i`-th segment of the transformed path at `t` gives the transform of the original evaluation -/
+theorem path_eval_commutes (A : Affine K) (h : A.determinant ≠ 0) (els : List (PathEl K)) (ss : List (PathSeg K))
+    (hs : segs els = some ss) :
+    ∃ ss', segs (els.map (fun e : PathEl K => A * e)) = some ss' ∧ ss'.length = ss.length ∧
+      ∀ (i : Nat) (t : K) (h1 : i < ss'.length) (h2 : i < ss.length), (ss'[i]).eval t = A * (ss[i]).eval t := by
+  refine ⟨ss.map (fun s : PathSeg K => A * s), ?_, List.length_map _, ?_⟩
+  · rw [path_segments_commute A h, hs]; rfl
+  · intro i t h1 h2
+    rw [List.getElem_map, pathSeg_eval_commutes]
+
+example : (Affine.scale (2 : Rat)).determinant ≠ 0 ∧
+    segs [PathEl.MoveTo ⟨0, 0⟩, PathEl.LineTo ⟨(1 : Rat), 0⟩, PathEl.ClosePath]
+      = some [PathSeg.Line ⟨⟨0, 0⟩, ⟨1, 0⟩⟩, PathSeg.Line ⟨⟨1, 0⟩, ⟨0, 0⟩⟩] := by decide +kernel
+/-- the singular map `scale 0` loses the closing segment -/
+example : let els := [PathEl.MoveTo ⟨0, 0⟩, PathEl.LineTo ⟨(1 : Rat), 0⟩, PathEl.ClosePath]
+    segs (els.map (fun e : PathEl Rat => Affine.scale (0 : Rat) * e)) ≠ (segs els).map (List.map (fun s : PathSeg Rat => Affine.scale (0 : Rat) * s)) := by
+  decide +kernel
+
 end Kurbo
